@@ -173,7 +173,7 @@ func (a *AWS) EC2() ec2iface.EC2API { return &ec2Client{a: a} }
 
 type asClient struct {
 	autoscalingiface.AutoScalingAPI // nil: unexpected calls panic visibly
-	a                              *AWS
+	a                               *AWS
 }
 
 func (c *asClient) DescribeAutoScalingGroups(in *autoscaling.DescribeAutoScalingGroupsInput) (*autoscaling.DescribeAutoScalingGroupsOutput, error) {
